@@ -307,7 +307,7 @@ class Kernel:
             return "None"
         return str(self.ctx_ids.get(id(ctx), "?"))
 
-    def exc_out(self, e: BaseException) -> list[str]:
+    def exc_out(self, e: BaseException, want: tuple[Any, str] | None = None) -> list[str]:
         from asphalt.core import AsyncResourceError, NoCurrentContext, ResourceConflict, ResourceNotFound
 
         if getattr(e, "from_factory", False):
@@ -315,6 +315,9 @@ class Kernel:
         if isinstance(e, ResourceConflict):
             return ["conflict"]
         if isinstance(e, ResourceNotFound):
+            # the exception says which resource was asked for
+            if want is not None and (getattr(e, "type", None) is not want[0] or getattr(e, "name", None) != want[1]):
+                return [f"notFound WRONG-KEY({getattr(e, 'name', None)!r})"]
             return ["notFound"]
         if isinstance(e, AsyncResourceError):
             return ["asyncError"]
@@ -330,11 +333,11 @@ class Kernel:
             return [self.rt_name(e)]
         return ["HARNESS-EXC " + repr(e)]
 
-    def guard(self, fn: Any, val: bool = False) -> list[str]:
+    def guard(self, fn: Any, val: bool = False, want: tuple[Any, str] | None = None) -> list[str]:
         try:
             r = fn()
         except Exception as e:  # noqa: BLE001
-            return self.exc_out(e)
+            return self.exc_out(e, want)
         return [val_name(r)] if val else ["ok"]
 
     @staticmethod
@@ -775,7 +778,8 @@ class Worker:
                     kw["types"] = ftypes[0] if len(ftypes) == 1 and cmd.get("single") else ftypes
                 return kern.guard(lambda: target.add_resource_factory(fn, cmd["name"], **kw))
             if op == "getnw":
-                return kern.guard(lambda: target.get_resource_nowait(TYPES[cmd["ty"]], cmd["name"], optional=cmd["opt"]), val=True)
+                return kern.guard(lambda: target.get_resource_nowait(TYPES[cmd["ty"]], cmd["name"], optional=cmd["opt"]), val=True,
+                                  want=(TYPES[cmd["ty"]], cmd["name"]))
             if op == "get":
                 # run in a helper task so that a suspended lookup does not block the worker
                 async def helper() -> None:
@@ -787,7 +791,7 @@ class Worker:
                     except BaseException as e:  # noqa: BLE001
                         if type(e).__name__ in ("Cancelled", "CancelledError"):
                             raise
-                        r = kern.exc_out(e)
+                        r = kern.exc_out(e, (TYPES[cmd["ty"]], cmd["name"]))
                     if kern.opidx == cmd["i"]:
                         kern.results[cmd["i"]] = r
                     kern.helper_results.append((cmd["i"], cmd.get("lid", cmd["t"]), r))
